@@ -940,6 +940,18 @@ def fxpmult_cfgs(tier):
     return out
 
 
+def b_fxpmult_const(D, p):
+    # one operand is driven by a Constant block (every encoding of its format in turn): the product must be the same function of the encodings
+    af, bf, rf = p['af'], p['bf'], p['rf']
+    a, b, r = D.wire('a', sum(af)), D.wire('b', sum(bf)), D.wire('r', sum(rf))
+    D.make('Constant', 'kb', p['k'], b)
+    D.make('FixedPointMult', 'dut', a, af, b, bf, r, rf, rel='py4hw/logic/arithmetic_fxp.py')
+    return dict(a=a), dict(r=r)
+
+
+spec('FixedPointMult:constant-operand', 'C14',
+     lambda tier: [dict(af=f, bf=f, rf=(1, f[1] + f[1], f[2]), k=k) for f in ((1, 1, 1), (1, 1, 2)) for k in range(1 << sum(f))],
+     b_fxpmult_const, lambda v, p: r_fxpmult(dict(a=v['a'], b=p['k']), p), note='operand b driven by Constant(k) for every encoding k')
 spec('FixedPointMult', 'C14', fxpmult_cfgs, b_fxpmult, r_fxpmult,
      note='exact product of the signed values, truncated to the result fraction and reduced to the result width (incl. the most negative value squared)')
 
